@@ -12,6 +12,7 @@ pub mod rng;
 pub mod sentry;
 pub mod service;
 pub mod sim;
+pub mod tamper;
 
 #[cfg(not(vcheck_no_alloc_monitor))]
 #[global_allocator]
